@@ -116,8 +116,31 @@ struct Stats {
 }
 
 /// One case: the same steps as c16::run_case (observe under catch_unwind, to_lowercase table), other printer.
+/// progress of the feeder, watched by a monitor thread: a case on which the tokenizer does not return stops the run
+static PROGRESS: std::sync::atomic::AtomicU64 = std::sync::atomic::AtomicU64::new(0);
+static CURRENT: std::sync::Mutex<Vec<u8>> = std::sync::Mutex::new(Vec::new());
+pub fn start_monitor() {
+    std::thread::spawn(|| {
+        let mut last = u64::MAX;
+        let mut stuck = 0;
+        loop {
+            std::thread::sleep(std::time::Duration::from_secs(5));
+            let p = PROGRESS.load(std::sync::atomic::Ordering::Relaxed);
+            if p == last { stuck += 1; } else { stuck = 0; last = p; }
+            if stuck >= 4 {
+                let cur = CURRENT.lock().map(|c| c.clone()).unwrap_or_default();
+                let hexs: String = cur.iter().map(|b| format!("{:02x}", b)).collect();
+                eprintln!("bulk16: HANG the tokenizer did not return within 20 s on input (hex) {}", hexs);
+                std::process::exit(5);
+            }
+        }
+    });
+}
+
 fn one(out: &mut Vec<u8>, bytes: &[u8], ctx: &str, st: &mut Stats) {
     st.cases += 1;
+    if let Ok(mut c) = CURRENT.lock() { c.clear(); c.extend_from_slice(bytes); }
+    PROGRESS.fetch_add(1, std::sync::atomic::Ordering::Relaxed);
     let b2 = bytes.to_vec();
     let c2 = ctx.to_string();
     let r = catch(move || observe(b2, c2));
@@ -212,6 +235,7 @@ pub fn lower_is_ascii(alpha: &[Vec<u8>]) -> bool {
 }
 
 pub fn main(args: &[String]) {
+    start_monitor();
     let mut alpha_name = "c16".to_string();
     let mut len: usize = 3;
     let mut minlen: usize = 0;
